@@ -140,6 +140,9 @@ def confirm_replay(path, oracle, timeout=600):
                            timeout=timeout, env=env, universal_newlines=True)
     except subprocess.TimeoutExpired:
         return False, 'replay timed out'
+    if oracle is None:
+        m = re.search(r'^REPRODUCED oracle=(\S+) ', p.stdout, re.M)
+        return (m.group(1) if (m and p.returncode == 1) else None), p.stdout[-2000:]
     ok = p.returncode == 1 and ('REPRODUCED oracle=%s ' % oracle) in p.stdout
     return ok, p.stdout[-2000:]
 
@@ -465,9 +468,10 @@ def _triage_dead_worker(engine, prop, tier, seed, inflight_dir, hard_s):
         v = {'oracle': 'hang', 'step': None, 'signature': 'hang',
              'detail': 'run %d did not finish within %.0f s (worker killed by watchdog)' % (idx, hard_s)}
         path = write_replay(prop, engine, case, v, 's%d-r%d-hang' % (seed, idx))
-        ok, out = confirm_replay(path, 'hang', timeout=hard_s * 3 + 120)
-        print('in-flight run %d: %s' % (idx, 'hang confirmed' if ok else 'finished normally on re-execution'))
-        if ok:
+        got, out = confirm_replay(path, None, timeout=hard_s * 3 + 120)
+        print('in-flight run %d: %s' % (idx, ('violation confirmed on re-execution, oracle=%s' % got) if got
+                                        else 'finished normally on re-execution'))
+        if got:
             hung.append((idx, path))
     return hung
 
